@@ -3,6 +3,7 @@ import Proofs.Sponge
 import Model.Hash
 import Extracted.Consts
 import Proofs.KmacEnc
+import Proofs.SpongeFips
 
 /-! # C13 — hashers and KMAC128 equal their standards for all inputs and chunkings
 
@@ -69,6 +70,26 @@ theorem sha3_write_chunks (a : Hash.Algo) (P : Sponge.Params KeccakF.State) (h :
   have hr : 0 < P.rate := by
     cases a <;> simp [Hash.spongeOf, Hash.keccakParams] at h <;> subst h <;> decide
   exact write_chunks P hr s chunks
+
+/-- the reference digest of these theorems is FIPS 202's sponge - pad the whole message with the domain suffix and
+    `pad10*1`, absorb every block of the padded message, squeeze - for every rate > 0, domain byte, message and
+    output length up to the rate -/
+theorem refHash_is_fips202 (rate : Nat) (hr : 0 < rate) (ds : UInt8) (outLen : Nat) (ho : outLen ≤ rate) (m : Bytes) :
+    Sponge.refHash (Hash.keccakParams rate ds outLen) m = KeccakF.spongeRef rate ds outLen m :=
+  Proofs.SpongeFips.refHash_eq_spongeRef rate hr ds outLen ho m
+
+open Model.Hash in
+/-- **SHA3-256, SHA3-384 and Keccak-256 of the package are the standard's functions for every input and every way
+    of cutting it into `Write` calls**: `Reset`, any sequence of `Write`s, `SumHash` returns `Hash.digest` (FIPS 202
+    pad-then-absorb over `keccakF1600`) of the concatenation -/
+theorem sha3_hashers_equal_standard (a : Hash.Algo) (P : Sponge.Params KeccakF.State) (h : Hash.spongeOf a = some P)
+    (s : Sponge.State KeccakF.State) (chunks : List Bytes) :
+    Sponge.sum P (chunks.foldl (Sponge.write P) (Sponge.reset P s)) = Hash.digest a chunks.flatten := by
+  rw [sha3_write_chunks a P h s chunks]
+  cases a <;> simp [Hash.spongeOf] at h <;> subst h
+  · exact refHash_is_fips202 136 (by decide) 0x06 32 (by decide) _
+  · exact refHash_is_fips202 104 (by decide) 0x06 48 (by decide) _
+  · exact refHash_is_fips202 136 (by decide) 0x01 32 (by decide) _
 
 /-- parameters of the code as it is now: rates, domain bytes, output lengths -/
 theorem tie_params :
@@ -197,6 +218,8 @@ end Props.C13
 #print axioms Props.C13.never_reset_ok
 #print axioms Props.C13.oneShot_eq
 #print axioms Props.C13.sha3_write_chunks
+#print axioms Props.C13.refHash_is_fips202
+#print axioms Props.C13.sha3_hashers_equal_standard
 #print axioms Props.C13.tie_params
 #print axioms Props.C13.padlen_spec
 #print axioms Props.C13.bytepad_aligned_minimal
